@@ -741,7 +741,9 @@ class StrategyBase(Node):
         # update data if this value is different or
         # if now has changed - avoid all this if not since it
         # won't change
-        if newpt or not is_zero(self._value - val) or not is_zero(self._notl_value - notl_val):
+        # (the flows row holds the net flows as of the previous update of this date:
+        # a flow offset by a non-flow adjustment leaves the value unchanged but not the index)
+        if newpt or not is_zero(self._value - val) or not is_zero(self._notl_value - notl_val) or not is_zero(self._net_flows - self._all_flows.values[inow]):
             self._value = val
             _w(self._values)[inow] = val
 
